@@ -660,6 +660,15 @@ pub fn generate(pop: Pop, seed: u64, run: u64) -> Trace {
         if callback_faults == CallbackFaults::default() {
             callback_faults.clone_panic_at = Some(ctx.rng.below(len as u64 + 1) as u32);
         }
+        // a third of the runs: the key's own Hash / Eq panics instead
+        if ctx.rng.chance(1, 3) {
+            callback_faults = CallbackFaults::default();
+            if ctx.rng.chance(1, 2) {
+                callback_faults.hash_panic_at = Some(ctx.rng.below(4 * len as u64 + 1) as u32);
+            } else {
+                callback_faults.eq_panic_at = Some(ctx.rng.below(3 * len as u64 + 1) as u32);
+            }
+        }
     }
     Trace {
         engine,
